@@ -1,11 +1,13 @@
 (* One entry point for the correspondence check: run cmd args = the model's observation, as text. *)
 From Coq Require Import List NArith Bool String.
 Import ListNotations.
-Require Import Show RunVersion.
+Require Import Show RunVersion RunSpec RunSets RunNames RunFiles RunTags RunPlat RunMeta RunEmail RunLic RunMarker RunReq RunMisc.
 Open Scope N_scope.
 
 Definition first_some {A} (l : list (option A)) (d : A) : A :=
   fold_right (fun o acc => match o with Some a => a | None => acc end) d l.
 
 Definition run (cmd : list N) (args : list (list N)) : list N :=
-  first_some [ run_version cmd args ] (asc "?unknown-command").
+  first_some [ run_version cmd args; run_spec cmd args; run_sets cmd args; run_names cmd args; run_files cmd args;
+               run_tags cmd args; run_plat cmd args; run_meta cmd args; run_email cmd args; run_lic cmd args;
+               run_marker cmd args; run_req cmd args; run_misc cmd args ] (asc "?unknown-command").
